@@ -211,7 +211,26 @@ def check_df_wrapper(ctx, fname, callee, rule, extra_args=(), shift=False):
             I.hooks["call"] = call
 
             def lib(I_, name, args, kw, st, n):
-                if name in ("pandas.DataFrame",): return Lib("pandas.DataFrame")
+                if name in ("pandas.DataFrame",):
+                    if not args and not kw: return Lib("pandas.DataFrame")
+                    m = Marker("newframe", data=args[0] if args else kw.get("data"), index=kw.get("index"))
+                    return m
+                if name == "pandas.concat":
+                    from .absint import _concrete_seq
+                    parts = _concrete_seq(args[0]) if args else None
+                    ax = to_x(kw.get("axis", X.const(0)))
+                    if parts and len(parts) == 2 and isinstance(parts[0], DF) and isinstance(parts[1], Marker) and parts[1].kind == "newframe" and ax is not None and ax.as_int() == 1:
+                        nf_, base = parts[1], parts[0]
+                        ix = nf_.info.get("index")
+                        same = isinstance(ix, Marker) and ix.kind == "index" and ix.info.get("of") in (base.name, "df")
+                        if not same:
+                            return Mismatch("pd.concat(axis=1) aligns on index labels: the frame built from raw arrays has a default RangeIndex, so for a frame whose index is not "
+                                            "0..n-1 (time-indexed, or already truncated) the shifted values land on the wrong rows / extra NaN rows")
+                        d_ = nf_.info.get("data")
+                        if isinstance(d_, DictVal):
+                            for k_, v_ in d_.d.items(): base.sets.append((k_, v_))
+                        return base
+                    return Opaque("pandas.concat")
                 if name == "builtins.isinstance" and args and isinstance(args[0], DF): return True
                 if name == "numpy.isfinite": return True
                 return NotImplemented
@@ -229,8 +248,13 @@ def check_df_wrapper(ctx, fname, callee, rule, extra_args=(), shift=False):
             own = [e for e in log if e[0] == "df"]
             if own:
                 ctx.violated(rule, c + "[caller frame]", f"the caller's DataFrame is modified (df[{own[0][1]!r}] = ...)", where); continue
+            if isinstance(r, PV):
+                # a zero shift returns the frame itself; the generic case is the other branch
+                cands = [l for pth, l in pv_leaves(r) if all(not (getattr(cd, "eq", None) is not None and pol) for cd, pol in pth)]
+                if len(cands) == 1: r = cands[0]
             if not (isinstance(r, DF) and r.name == "df.copy"):
-                ctx.ob(rule, c + "[result]", UNKNOWN if is_opaque(r) else VIOLATED, f"result is {r!r}, not the working copy"[:160], where); continue
+                ctx.ob(rule, c + "[result]", VIOLATED if (isinstance(r, Mismatch) or not is_opaque(r)) else UNKNOWN,
+                       (r.why if isinstance(r, Mismatch) else f"result is {r!r}, not the working copy")[:400], where); continue
             sets = dict((k, v) for k, v in r.sets)
             bad = None
             for col in want_cols:
